@@ -59,7 +59,7 @@ if [ $res_build = yes ]; then
     o="$(mktemp -d /tmp/seedchk-out-XXXXXX)"
     # the COMMITTED /verif (git archive HEAD): edits in progress in the working tree cannot break or bend the run
     mkdir -p "$o/verif" && git -C "$VERIF" archive HEAD -- . ':!seeded' ':!evidence' ':!replays' | tar -x -C "$o/verif" && mkdir -p "$o/verif/tools/bin" && cp -p "$VERIF/tools/bin/vinstr" "$o/verif/tools/bin/" 2>/dev/null
-    VERIF_REPO="$WT" "$o/verif/check" "$P" --tier "$TIER" > "$OUT/check_$P.txt" 2>&1
+    VERIF_REPO="$WT" "$o/verif/check" "$P" --tier "$TIER" --budget 600 > "$OUT/check_$P.txt" 2>&1
     rc=$?
     caught[$P]=$rc
     log "check $P tier=$TIER exit=$rc: $(grep -c '^VIOLATION' "$OUT/check_$P.txt") violation line(s)"
